@@ -433,6 +433,25 @@ def c06_mut(ctx):
 
 
 # ======================================================================================= C14-PARTIAL
+def bag_wrapper_adts(ctx):
+    """crate-local ADTs that hold a positional buffer and whose destruction touches it: a field of a bag type that is
+    not under ManuallyDrop, or any bag-typed field when the ADT has its own `impl Drop`"""
+    F = ctx.facts
+    bag_paths = [h.split(':', 1)[1] for h in BAG_HEADS]
+    drops = {im['self_head'] for im in F.impls if im.get('trait') in ('std::ops::Drop', 'core::ops::Drop')}
+    out = set()
+    for path, a in F.adts.items():
+        if a.get('ext'):
+            continue
+        for v in a['variants']:
+            for f in v['fields']:
+                ty = f.get('ty', '')
+                if any(bp in ty for bp in bag_paths):
+                    if 'ManuallyDrop<' not in ty or ('adt:' + path) in drops:
+                        out.add('adt:' + path)
+    return out
+
+
 @rule('C14-PARTIAL', 'a partially written positional buffer has no destructor reachable from the runner call\'s unwind edge')
 def c14_partial(ctx):
     out = RuleOut('C14-PARTIAL')
@@ -443,9 +462,10 @@ def c14_partial(ctx):
         b = F.bodies[bn]
         clo, _ = S.task_of_site.get((bn, bb), (None, []))
         # locals of a positional-buffer type that the task closure can reach (captured by reference)
-        bag_locals = [l for l, d in b.locals.items() if d['head'] in BAG_HEADS or
+        wrappers = bag_wrapper_adts(ctx)
+        bag_locals = [l for l, d in b.locals.items() if d['head'] in BAG_HEADS or d['head'] in wrappers or
                       (d['head'].startswith('adt:std::mem::ManuallyDrop') and any(h.split(':', 1)[1] in d['ty'] for h in BAG_HEADS))]
-        raw_bags = [l for l in bag_locals if b.locals[l]['head'] in BAG_HEADS]
+        raw_bags = [l for l in bag_locals if b.locals[l]['head'] in BAG_HEADS or b.locals[l]['head'] in wrappers]
         if not bag_locals:
             continue
         t = b.blocks[bb]['term']
@@ -544,7 +564,8 @@ def merge_functions(ctx):
     out = []
     for b in ctx.facts.fn_bodies():
         ms = {is_own_prim(res(t), t) for _, t in b.calls()}
-        if any(m and m.startswith('ptr::read') for m in ms) and 'set_len' in ms:
+        inner = {is_own_prim(res(t), t) for cb in ctx.facts.closures_in(b) for _, t in cb.calls()}
+        if any(m and m.startswith('ptr::read') for m in ms) and ('set_len' in ms or 'set_len' in inner):
             out.append(b.name)
     return out
 
